@@ -1,5 +1,6 @@
 import GrinVerif.Drv.Common
 import GrinVerif.Model.Codec
+import GrinVerif.Model.CodecConn
 import GrinVerif.Model.SerBlock
 import GrinVerif.Model.DecSer
 /-! Driver glue for the `codec` domain (line protocol handler): C11 decoder lines and C19 framing lines.
@@ -37,6 +38,17 @@ import GrinVerif.Model.DecSer
     codec ring push <nonce>              => <outcome of that `initiate()`>   (nonce read off the wire)
     codec ring self <nonce>              => err PeerWithSelf   (the same `Handshake` dials its own `accept`)
     codec ring replay <nonce>            => err PeerWithSelf | ok <version>  (a `Hand` replaying an older nonce)
+    codec duplex <ver> <[t:body:att,…]>  => [ev;…]|[ev;…]   (C19, spec: two real `conn::listen` ends; end A is handed the
+                                          messages through `ConnHandle::send` (writer thread, `write_message`, attachments
+                                          from files), end B's handler records them and answers Pings; left = seen at B,
+                                          right = the Pongs seen at A.  Model: `writeOps` as the fragments, `connLoop`)
+    codec dtrack <ver> <[t:body:att,…]>  => sent:<bytes>:<count>;recv:<bytes>:<count>   (the two `Tracker`s afterwards)
+    codec hconn <ver> <[frag,…]>         => [ev;…;pongs:<n>;closed:<0|1>]   (C19: the reader thread with a handler whose
+                                          answer to a Ping is scripted by `height % 16`: `connLoop`, `try_break!` table)
+    codec hsw hand <genesis> <caps> <td> <self addr> <peer addr> <ua> <nonce> => <frame>   (the `Hand` the real `initiate` writes)
+    codec hsw accept <genesis> <caps> <td> <ua> <deny> <peer ip:port> <ring nonce> <addrs before> <stream>
+                                         => <ok caps:ua:ip:port:ver:td:in | err E>|<frame written | ->|<addrs after>
+    codec hsw initiate <genesis> <deny> <peer ip:port> <stream> => ok caps:ua:ip:port:ver:td:out | err E
 
 `canon` = the decoded value re-encoded (`-` where the model carries no value); `maxreq` = largest single
 allocation request the real decoder made, checked against the model's requested allocation
@@ -450,6 +462,189 @@ def showHs : Except HsErr Nat → String
 
 def LOCAL_PROTOCOL_VERSION : Nat := 1000
 
+/-! ### C19: connection level — writer thread, handler results, handshake messages on the wire -/
+
+/-- `[t:bodyhex:att,…]` (`att`: `-` none, `e` empty, else hex) -/
+def parsePlan (s : String) : Option (List OutMsg) :=
+  let inner := (s.drop 1).dropEnd 1 |>.toString
+  if inner.isEmpty then some [] else
+  (inner.splitOn ",").mapM fun item =>
+    match item.splitOn ":" with
+    | [t, b, a] =>
+      match t.toNat?, parseHex b with
+      | some t, some b =>
+        if a = "-" then some { t := t, body := b, att := none }
+        else if a = "e" then some { t := t, body := b, att := some [] }
+        else (parseHex a).map fun a => { t := t, body := b, att := some a }
+      | _, _ => none
+    | _ => none
+
+/-- the recording handler of the harness: a Ping is answered with the Pong of the same body, a
+`TxHashSetArchive` with `Consumed::Attachment(size = bytes)` -/
+def recHandler : Message DBT DH → Consumed
+  | .body t (.pingPong td h) =>
+    if t = GV.Gen.Msg.T_Ping then .response { t := GV.Gen.Msg.T_Pong, body := writeU64 td ++ writeU64 h, att := none } else .none
+  | .body _ (.txHashSetArchive _ _ bytes) => .attachment bytes
+  | _ => .none
+
+def SCRIPT_NAMES : List String :=
+  ["None", "Response", "Internal", "NoDandelionRelay", "Store", "Chain", "BadMessage", "Send", "Timeout", "PeerException",
+   "Connection:TimedOut", "Connection:WouldBlock", "Connection:Other", "Disconnect", "Banned", "Serialization"]
+
+/-- the scripted handler: the answer to a Ping is selected by `height % 16`; the error classes come
+from the regenerated `try_break!` table -/
+def scriptHandler : Message DBT DH → Consumed
+  | .body t (.pingPong td h) =>
+    if t = GV.Gen.Msg.T_Ping then
+      let name := SCRIPT_NAMES.getD (h % 16) "?"
+      if name = "None" then .none
+      else if name = "Response" then .response { t := GV.Gen.Msg.T_Pong, body := writeU64 td ++ writeU64 h, att := none }
+      else if name = "Disconnect" then .disconnect
+      else if name.startsWith "Connection:" then .err (GV.Gen.CodecConn.toleratedIoKinds.contains (name.drop 11).toString)
+      else .err (errTolerated name)
+    else .none
+  | .body _ (.txHashSetArchive _ _ bytes) => .attachment bytes
+  | _ => .none
+
+/-- the events the recording handler prints for what it was handed (completed attachment files are
+summed right after the update with `left == 0`) -/
+def renderHanded : List (Message DBT DH) → List Bytes → List String
+  | [], _ => []
+  | .unknown _ :: ms, fs => renderHanded ms fs
+  | .body t v :: ms, fs => s!"body:{t}:{toHex (encBody id v)}" :: renderHanded ms fs
+  | .headers hs rem :: ms, fs =>
+    s!"headers:{hs.length}:{rem}:{toHex (hs.map (encBlockHeader GV.Gen.AUTOMATED_TESTING_PROOF_SIZE .full)).flatten}" :: renderHanded ms fs
+  | .attachment rd left _ :: ms, fs =>
+    if left = 0 then
+      match fs with
+      | f :: fs' => s!"att:{rd}:{left}" :: s!"attsum:{f.length}:{checksumLoop f 0 0}" :: renderHanded ms fs'
+      | [] => s!"att:{rd}:{left}" :: "attsum:?" :: renderHanded ms []
+    else s!"att:{rd}:{left}" :: renderHanded ms fs
+
+/-- did the reader thread close the connection? (end of stream while idle = still up) -/
+def connClosed (o : ConnOut DBT DH (List Bytes)) : Nat :=
+  match o.view.stop with
+  | some (.codec (.err .conn)) => if o.sock.flatten.isEmpty ∧ o.codec.state = .none ∧ o.codec.buffer.isEmpty then 0 else 1
+  | _ => 1
+
+def duplexModel (ver : Nat) (plan : List OutMsg) : String × String :=
+  let net := netAutomatedTesting
+  -- the `write_all`s of A's writer thread are the fragments B's reader sees
+  let fragsAB := (plan.map (writeOps net [])).flatten
+  let ob := connLoop (read (drvEnvT ver) fragOps) false recHandler 1000000 Codec.new fragsAB none
+  let evB := renderHanded ob.view.handed ob.view.files
+  -- B's writer thread sends the responses back; A's handler answers nothing
+  let fragsBA := (ob.view.sent.map (writeOps net [])).flatten
+  let oa := connLoop (read (drvEnvT ver) fragOps) false (fun _ => Consumed.none) 1000000 Codec.new fragsBA none
+  let evA := renderHanded oa.view.handed oa.view.files
+  (s!"[{";".intercalate evB}]|[{";".intercalate evA}]",
+   -- the trackers: A's `sent_bytes`, B's `received_bytes` without the read that is still blocked at the end
+   let se := rcOf (plan.flatMap (sentEntries net []))
+   let re := rcOf ob.tracker.dropLast
+   s!"sent:{trackedBytes se}:{trackedCount se};recv:{trackedBytes re}:{trackedCount re}")
+
+def parseSockAddr (s : String) : Option SockAddr :=
+  match s.splitOn ":" with
+  | [ip, port] => match parseHex ip, port.toNat? with
+    | some ip, some port => some { ip := ip, port := port }
+    | _, _ => none
+  | _ => none
+
+def parseAddrList (s : String) : Option (List SockAddr) :=
+  if s.isEmpty then some [] else (s.splitOn "+").mapM parseSockAddr
+
+/-- `-` | `d=<list>` | `a=<list>` | `da=<list>/<list>` -/
+def parseDeny (s : String) : Option (Option (List SockAddr) × Option (List SockAddr)) :=
+  if s = "-" then some (none, none)
+  else if s.startsWith "da=" then
+    match (s.drop 3).toString.splitOn "/" with
+    | [d, a] => match parseAddrList d, parseAddrList a with
+      | some d, some a => some (some d, some a)
+      | _, _ => none
+    | _ => none
+  else if s.startsWith "d=" then (parseAddrList (s.drop 2).toString).map fun d => (some d, none)
+  else if s.startsWith "a=" then (parseAddrList (s.drop 2).toString).map fun a => (none, some a)
+  else none
+
+def parseAddrRing (s : String) : Option (List SockAddr) :=
+  let inner := (s.drop 1).dropEnd 1 |>.toString
+  if inner.isEmpty then some [] else (inner.splitOn ",").mapM parseSockAddr
+
+def sockOfPeerAddr : GV.Msg.PeerAddr → SockAddr
+  | .v4 ip port => { ip := ip, port := port }
+  | .v6 segs port => { ip := (segs.map writeU16).flatten, port := port }
+
+def showSock (a : SockAddr) : String := s!"{toHex a.ip}:{a.port}"
+def showRing (l : List SockAddr) : String := "[" ++ ",".intercalate (l.map showSock) ++ "]"
+
+def showHsErr : HsErr → String
+  | .genesisMismatch => "err GenesisMismatch"
+  | .peerWithSelf => "err PeerWithSelf"
+  | .connectionClose => "err ConnectionClose"
+
+def showInfo : Except HsErr Info → String
+  | .error e => showHsErr e
+  | .ok i =>
+    let ua := if i.userAgent.isEmpty then "-" else toHex i.userAgent
+    let dir := if i.inbound then "in" else "out"
+    s!"ok {i.capabilities}:{ua}:{toHex i.addr.ip}:{i.addr.port}:{i.version}:{i.totalDifficulty}:{dir}"
+
+def decOne {α : Type} (d : Dec α) (bs : Bytes) : Option α :=
+  match d bs with
+  | .ok v _ _ => some v
+  | _ => none
+
+def handleConn (args : List String) (impl : String) : Option Verdict :=
+  match args with
+  | ["duplex", ver, plan] =>
+    match nat? ver, parsePlan plan with
+    | some ver, some pl => some (cmpSpec (duplexModel ver pl).1 impl)
+    | _, _ => some .unknown
+  | ["dtrack", ver, plan] =>
+    match nat? ver, parsePlan plan with
+    | some ver, some pl => some (cmpModel (duplexModel ver pl).2 impl)
+    | _, _ => some .unknown
+  | ["hconn", ver, frags] =>
+    match nat? ver, parseHexList frags with
+    | some ver, some fr =>
+      let o := connLoop (read (drvEnvT ver) fragOps) false scriptHandler 1000000 Codec.new fr none
+      let evs := renderHanded o.view.handed o.view.files ++ [s!"pongs:{o.view.sent.length}", s!"closed:{connClosed o}"]
+      some (cmpModel s!"[{";".intercalate evs}]" impl)
+    | _, _ => some .unknown
+  | ["hsw", "hand", g, caps, td, selfA, peerA, ua, nonce] =>
+    match parseHex g, nat? caps, nat? td, (parseHex selfA).bind (decOne (decPeerAddr .bin)),
+          (parseHex peerA).bind (decOne (decPeerAddr .bin)), parseHex ua, nat? nonce with
+    | some g, some caps, some td, some sa, some pa, some ua, some nonce =>
+      let n : Node := { genesis := g, version := LOCAL_PROTOCOL_VERSION', capabilities := caps, totalDifficulty := td,
+                        userAgent := ua, deny := none, allow := none }
+      some (cmpModel (toHex (initiateWrites netAutomatedTesting n nonce sa pa)) impl)
+    | _, _, _, _, _, _, _ => some .unknown
+  | ["hsw", "accept", g, caps, td, ua, deny, peer, ringNonce, before, stream] =>
+    match parseHex g, nat? caps, nat? td, parseHex ua, parseDeny deny, parseSockAddr peer, nat? ringNonce,
+          parseAddrRing before, parseHex stream with
+    | some g, some caps, some td, some ua, some (d, a), some peer, some rn, some before, some bs =>
+      let n : Node := { genesis := g, version := LOCAL_PROTOCOL_VERSION', capabilities := caps, totalDifficulty := td,
+                        userAgent := ua, deny := d, allow := a }
+      let o := readMessage netAutomatedTesting GV.Gen.Msg.T_Hand (decHand .bin) bs
+      match o.res with
+      | .ok h =>
+        let r := acceptFull netAutomatedTesting n [rn] before (some peer) (sockOfPeerAddr h.senderAddr) h
+        let wrote := match r.wrote with | some w => toHex w | none => "-"
+        some (cmpModel s!"{showInfo r.res}|{wrote}|{showRing r.addrs}" impl)
+      | .error e => some (cmpModel s!"err {e.name}|-|{showRing before}" impl)
+    | _, _, _, _, _, _, _, _, _ => some .unknown
+  | ["hsw", "initiate", g, deny, peer, stream] =>
+    match parseHex g, parseDeny deny, parseSockAddr peer, parseHex stream with
+    | some g, some (d, a), some peer, some bs =>
+      let n : Node := { genesis := g, version := LOCAL_PROTOCOL_VERSION', capabilities := 0, totalDifficulty := 0,
+                        userAgent := [], deny := d, allow := a }
+      let o := readMessage netAutomatedTesting GV.Gen.Msg.T_Shake (decShake .bin) bs
+      match o.res with
+      | .ok sh => some (cmpModel (showInfo (initiateFull n peer sh)) impl)
+      | .error e => some (cmpModel s!"err {e.name}" impl)
+    | _, _, _, _ => some .unknown
+  | _ => none
+
 /-- strip a trailing `:<maxreq>` of the `end:` event (refusal lines) -/
 def splitEndMaxreq (impl : String) : String × Option Nat :=
   let inner := (impl.drop 1).dropEnd 1 |>.toString
@@ -467,6 +662,9 @@ def splitEndMaxreq (impl : String) : String × Option Nat :=
   | [] => (impl, none)
 
 def handle (st : St) (args : List String) (impl : String) : St × Verdict :=
+  match handleConn args impl with
+  | some v => (st, v)
+  | none =>
   match args with
   | ["run", ver, frags] =>
     match nat? ver, parseHexList frags with
